@@ -51,12 +51,77 @@ def rule_r2(facts, col):
                     col.ok("C08.R2", key, body.where(bb), "both sides are explicit sub-slices")
 
 
+def multiple_of(body, bb, e, c, depth=0):
+    """Is expression e provably a multiple of c (c = constant or structurally the same expression)?"""
+    e = peel(e, through_try=False)
+    if depth > 8 or e is None:
+        return False
+    same_c = lambda x: (peel(x, through_try=False).k == "const" and peel(c, through_try=False).k == "const"
+                        and peel(x, through_try=False).v == peel(c, through_try=False).v) or same_expr(x, c)
+    cv = peel(c, through_try=False).v if peel(c, through_try=False).k == "const" else None
+    if e.k == "const" and cv:
+        return isinstance(e.v, int) and e.v % cv == 0
+    if e.k == "bin":
+        if e.op == "Mul" and (same_c(e.a) or same_c(e.b)):
+            return True
+        if e.op == "Sub":
+            r = peel(e.b, through_try=False)
+            if r.k == "bin" and r.op == "Rem" and same_expr(r.a, e.a) and same_c(r.b):
+                return True
+            if r.k == "bin" and r.op == "BitAnd" and same_expr(r.a, e.a) and cv and peel(r.b, through_try=False).k == "const" \
+                    and peel(r.b, through_try=False).v == cv - 1 and cv & (cv - 1) == 0:
+                return True
+        if e.op == "BitAnd" and cv and cv & (cv - 1) == 0:
+            m = peel(e.b, through_try=False)
+            if m.k == "un" and m.op == "Not":
+                mm = peel(m.a, through_try=False)
+                if mm.k == "const" and mm.v == cv - 1:
+                    return True
+    if e.k == "call" and (e.q in MIN_CALLS or e.rq in MIN_CALLS or e.q in MAX_CALLS or e.rq in MAX_CALLS):
+        return all(multiple_of(body, bb, x, c, depth + 1) for x in e.args)
+    for f in facts_at(body, bb):
+        if f[0] == "Eq":
+            for x, y in ((f[1], f[2]), (f[2], f[1])):
+                px, py = peel(x, through_try=False), peel(y, through_try=False)
+                if px.k == "bin" and px.op == "Rem" and same_expr(px.a, e) and same_c(px.b) and py.k == "const" and py.v == 0:
+                    return True
+    return False
+
+
+def rule_r3(facts, col):
+    """rate consistency: when a block commits produce(a / c) for consume(a), a is a multiple of c
+    (otherwise the fractional input is dropped and the output depends on how the input was chunked)"""
+    for body in facts.impl_bodies(BLOCK_TRAIT, "work"):
+        if body.from_derive:
+            continue
+        cons = [(bb, t) for bb, t in body.calls_to(effects.CONSUME)]
+        prods = [(bb, t) for bb, t in body.calls_to(effects.PRODUCE)]
+        for cb, ct in cons:
+            a = body.operand_expr(ct["args"][1])
+            for pb, pt in prods:
+                b = peel(body.operand_expr(pt["args"][1]), through_try=False)
+                if not (b.k == "bin" and b.op == "Div" and same_expr(b.a, a)):
+                    continue
+                if not (pb in body.reachable(cb) or cb in body.reachable(pb)):
+                    continue
+                key = "%s:consume/produce" % body.q
+                if multiple_of(body, cb, a, b.b):
+                    col.ok("C08.R3", key, body.where(cb), "consume(a), produce(a / c) with a established a multiple of c")
+                else:
+                    col.bad("C08.R3", key, body.where(cb),
+                            "work() consumes `a` input items and produces `a / %s` outputs, but nothing makes `a` a multiple of that "
+                            "ratio: the left-over input of an odd-sized piece is consumed without being decoded, so the output depends "
+                            "on how the input was chunked (and every later sample is misaligned)" % show(b.b)[:30], {})
+
+
 def run(ctx):
     facts = ctx.facts("default")
     fam = ctx.facts("family")
     c19.rule_work(fam, ctx, only={"C08.R1"})
     c19.rule_work(facts, ctx, only={"C08.R1"})
     rule_r2(facts, ctx)
+    rule_r3(facts, ctx)
+    ctx.floor("C08.R3", 2, "AuDecode (2 bytes/sample) and FirFilter (decimation)")
     ctx.floor("C08.R1", 54 * 4, "4 loop-shape obligations x (36 family + 18 in-crate sync blocks)")
     ctx.floor("C08.R2", 4, "fill_from_slice / copy_from_slice into write windows (Delay, VectorSource, Skip, FftStream, ...)")
     ctx.explain("C08 (partial): for derive-generated sync/sync_tag blocks the output is a fold of process_sync* over the input sequence "
